@@ -87,6 +87,7 @@ func Verif_C10_CrashAtEveryStep() {
 	ds := c10Datasets()
 	prev := vr.Choose("earlier_snapshots", 3)
 	e1 := w.engine(nil)
+	_ = e1
 	for i := 0; i < prev; i++ {
 		w.cur = ds[i]
 		w.now = w.now.Add(time.Second)
